@@ -165,7 +165,12 @@ def gen_truth(tier, seed):
 
 
 def _small(tier, seed):
-    return [c for c in gen_truth_seq(tier, seed) if len(c["nodes"]) <= (4 if tier == "quick" else 5)]
+    """all DAGs <= 4 nodes; thorough: + 300 of the sampled 5-node DAGs (evenly spread)."""
+    cases = list(gen_truth_seq(tier, seed))
+    fives = [c for c in cases if len(c["nodes"]) == 5] if tier != "quick" else []
+    fives = fives[::max(1, len(fives) // 300)][:300]
+    out = [c for c in cases if len(c["nodes"]) <= 4] + fives
+    return [c for c in out if not triangle_class(c["edges"])] + [c for c in out if triangle_class(c["edges"])]
 
 
 def _multi(c):
@@ -582,10 +587,10 @@ def groups(tier):
                     "independence list with ci_test='independence_match' (+ a data frame that only carries the column names); variants orig/stable/parallel "
                     "(n_jobs=1; 2 cases with n_jobs=2), max_cond_vars in {n,n+1,n+5}, return types skeleton / pdag|cpdag / dag; 8 hash seeds per case"),
         Group("pc_independencies_only", gen_indonly, check_pc_independencies_only, lambda c: nontrivial(c) and _mentions_all(c), seed_fanout=4, engine="E3",
-              bound="DAGs <= 4 (thorough 5) nodes whose pairwise independence list mentions every node (others cannot be conveyed through PC(independencies=...) "
+              bound="DAGs <= 4 nodes (thorough: + 300 five-node DAGs) whose pairwise independence list mentions every node (others cannot be conveyed through PC(independencies=...) "
                     "without data and are skipped); one variant per case; isolated nodes missing from the PDAG/DAG are left to group isolated_nodes"),
         Group("pc_get_independencies", gen_getind, check_pc_get_independencies, nontrivial, seed_fanout=2, engine="E3",
-              bound="DAGs <= 4 (thorough 5) nodes; independencies=DAG.get_independencies() as produced by pgmpy: every pairwise question through "
+              bound="DAGs <= 4 nodes (thorough: + 300 five-node DAGs); independencies=DAG.get_independencies() as produced by pgmpy: every pairwise question through "
                     "CITests.independence_match, then PC (one variant, all return types) if all answers are exact"),
         Group("skeleton_to_pdag", gen_static, check_static, nontrivial, seed_fanout=8, engine="E3",
               bound="same DAG enumeration (>= 3 nodes); true skeleton with seeded node/edge insertion order, one seeded arbitrary (not necessarily minimal) "
